@@ -1,4 +1,5 @@
 def setup(chk):
     chk.add_tu('C06.cpp')
+    chk.add_tu('C01h.cpp')   # heap containers (std::vector / std::basic_string): round trip + reference bytes + GetSize in one harness family, shared by C01/C03/C06
     chk.extra_evidence.update({'bounds_text': 'core pool x {BufferWriter, PedanticBufferWriter, ConstexprBufferWriter, BoundedWriter over each} (quick: 2 writers per type by rotation; thorough: all), every value, every capacity 0..GetSize+1 (symbolic), canary-filled memory behind the capacity checked through a symbolic index; table entry sizes walked with the reference integer decoder',
       'outside_bounds': ['handles (GetSize over-estimates by design; C15)', 'heap containers (thorough tier of C01/C03)', 'std::map / std::unordered_map']})
